@@ -94,7 +94,8 @@ func (manager *partitionManager) Stop() {
 		zap.String("partition", manager.pc.Name))
 	close(manager.stopCleanExpiredApps)
 	close(manager.stopCleanRoot)
-	manager.remove()
+	// the callers hold the cluster context lock, which remove() takes again when it drops the partition: do not block
+	go manager.remove()
 }
 
 // Remove drained managed and empty unmanaged queues. Perform the action recursively.
